@@ -6,6 +6,16 @@ ALL = ["C%02d" % i for i in range(1, 21)]
 
 # id -> dict(level, text, note, technique, design, engine, thorough=True)
 CHECKS = {
+ "C02": dict(level="exploration",
+  text="All responder lists of length 0..3 over 8 behaviours (good, revoked, unknown, HTTP 500 + garbage, connection refused, non-OCSP body, ldap:// URL, https answering good) x aia_strict x default cache duration {0, 10m} x nextUpdate {absent, +1h} x chain shape (same / other key type, with / without AKI), each a 2-event history (lookup; all responders down; lookup) on the real OCSPRevocationChecker with a scripted transport, compared with a boring reference model (first authentic answer in list order decides; strict rule; cache rule).",
+  note="OCSP status 'unknown' and strict-mode denials that the reference would accept are not judged (the statement is one-directional there). Mode composition is C03's business.",
+  technique="exhaustive enumeration of environment behaviours (responder lists x flags) with 2-event histories against a reference model",
+  design="DESIGN.md §4 C02", engine="configuration/behaviour enumerator"),
+ "C14": dict(level="model_checking",
+  text="Explicit-state BFS over event histories {lookup(c1|c1'|c2, V1|V2), advance(L/2|L+1s|L-1s), responder flips to revoked, responder down/up, Cleanup(V2)} on the real checker + cache2go under a shared virtual clock, for 6 cache configurations, to depth 5 (quick) / 7 (thorough); states deduplicated by a canonical key; invariants evaluated on every transition against a reference model: a hit only for the same (issuer, serial), never older than its lifetime whatever the read pattern, never with zero lifetime, never right after a failed query.",
+  note="Cache hit is observed as 'no transport request during the lookup'. The canonical key buckets ages relative to L (a coarser key would merge states with different futures; the buckets keep <L/2, <=L, >L and last-read apart).",
+  technique="explicit-state model checking (BFS over event histories with canonical state keys) directly on the implementation under a virtual clock",
+  design="DESIGN.md §4 C14", engine="history explorer (fw.BFS)"),
  "C04": dict(level="exploration",
   text="Exhaustive matrix signature algorithm (10 supported + RSA-PSS + Ed25519 + unknown) x signer (8 kinds incl. sibling CA with identical DN, the end-entity's own key, CA without cRLSign) x AKI form (6) x intake path (first load, refresh) x good/bad signature, plus EVERY single-bit flip of tbsCertList|signatureAlgorithm|signatureValue of an EC and an RSA seed, each driven through the real Repository (AddCRL / UpdateCRL, strict lookup as the in-force probe). Oracle (soundness direction): in force => authentic by construction.",
   note="Entitlement reference is computed from how each case was built, independent of the implementation; completeness (authentic => accepted) is counted, not judged.",
